@@ -182,7 +182,7 @@ Proof.
   induction l as [|s l IH]; intros acc acc' H Hnd; cbn in H.
   - inversion H; subst. exact Hnd.
   - destruct (existsb (fun p => str_eqb (sp_name p) (sp_name s)) acc) eqn:E1; [discriminate|].
-    destruct (existsb (fun p => str_eqb (sp_source p) (sp_source s)) acc) eqn:E2; [discriminate|].
+    destruct (existsb (fun p => str_eqb (normalize_source (sp_source p)) (normalize_source (sp_source s))) acc) eqn:E2; [discriminate|].
     apply IH in H; [exact H|]. rewrite map_app. cbn.
     apply NoDup_app_intro_ls; [exact Hnd|].
     intros Hin. apply in_map_iff in Hin as (p & Hp & Hin).
